@@ -80,7 +80,7 @@ def gen(args):
         cold = {}
         tables = []
         for k in range(1, nmax + 1):
-            o = cls(n_to_select=k, **kw0)
+            o = core.mk(cls, n_to_select=k, **kw0)
             if k == nmax:
                 rec = H.Recorder(o, name, X, y, unit, exact)
                 rec.fit(k, warm=False, with_y=y is not None, init=[])
